@@ -13,4 +13,5 @@ import XehModel.Proofs.Tables.Limits
 import XehModel.Proofs.Tables.BuildRoutes
 import XehModel.Proofs.Tables.LastError
 import XehModel.Proofs.Tables.ReverseLog
+import XehModel.Proofs.Tables.RangeOps
 import XehModel.Proofs.Tables.Mutations
